@@ -9,6 +9,10 @@ line `# kind: <kind>` tells checks/c17.py what is expected of it:
   indep-cold          same, nothing warmed                                                   -> first-use statics (finding)
   load-bind           load with RESTRICT_TO_CPUBINDING|IS_THISSYSTEM while bound to one CPU  -> caches valid after load (regression of fix 970d793)
   synth-warned        HWLOC_SYNTHETIC_VERBOSE + shared memory-side cache: `warned` is a first-use static (finding when cold; regression of fix 128454f when warm)
+  indep-faulty        independent histories that include FAILING loads (malformed XML buffers/files, bad synthetic,
+                      blacklisted unknown components) next to other threads' XML imports/exports of plain and
+                      parser-demanding documents; every thread's per-call results are compared with the same
+                      history run ALONE IN A FRESH PROCESS                                  -> no interference, no race
   nomemattr           NO_MEMATTRS + user attribute: refresh validates it (regression of fix 12fb556)
 """
 import os
@@ -147,7 +151,7 @@ def nomemattr(rng, repo):
 def shrink(case, still_fails):
     """delta-debugging over the non-structural lines of a case"""
     lines = case.strip("\n").split("\n")
-    keep = lambda l: l.startswith("#") or l.startswith("init") or l.startswith("load") or l.startswith("threads") or l.startswith("run") or " init " in l or " load " in l or " destroy " in l or l.startswith("destroy")
+    keep = lambda l: l.endswith(" barrier") or l.startswith("#") or l.startswith("init") or l.startswith("load") or l.startswith("threads") or l.startswith("run") or " init " in l or " load " in l or " destroy " in l or l.startswith("destroy")
     changed = True
     while changed:
         changed = False
@@ -159,3 +163,106 @@ def shrink(case, still_fails):
                 lines = cand
                 changed = True
     return "\n".join(lines) + "\n"
+
+
+# ---------------------------------------------------------------------------------------------
+# Histories with FAILING loads interleaved with other threads' XML imports/exports (kind indep-faulty)
+
+BAD_SYNTH = ["pack:2 foo:3", "pack:0 pu:2", "", "numa:2 core:x", "pu:2 pack:2"]
+
+
+def make_doc_variants(base_xml):
+    """From one exported document: well-formed variants that a full XML parser accepts but a minimal one
+    may not, and malformed ones.  -> {name: bytes}"""
+    import re
+    t = base_xml
+    v = {}
+    v["plain"] = t
+    v["sq"] = re.sub(r'="([^"\']*)"', r"='\1'", t)                                    # single-quoted attributes
+    v["comment"] = t.replace("<topology", "<!-- a comment -->\n<topology", 1).replace("</topology>", "  <!-- another -->\n</topology>", 1)
+    v["charref"] = t.replace('type="Machine"', 'type="&#77;achine"', 1)                 # character reference
+    v["entity"] = re.sub(r"<!DOCTYPE[^>]*>", '<!DOCTYPE topology SYSTEM "hwloc2.dtd" [<!ENTITY m "Machine">]>', t, 1).replace('type="Machine"', 'type="&m;"', 1)
+    v["enc"] = re.sub(r"<\?xml[^>]*\?>", '<?xml version="1.0" encoding="ISO-8859-1"?>', t, 1)
+    v["nodecl"] = re.sub(r"<\?xml[^>]*\?>\n?", "", t, 1)
+    v["spaces"] = t.replace("=\"", " = \"").replace("/>", " />")
+    # malformed
+    v["trunc"] = t[: len(t) // 2]
+    v["unclosed"] = t.replace("</topology>", "", 1)
+    v["garbage"] = "this is not xml at all\n"
+    v["empty"] = ""
+    v["wrongroot"] = t.replace("<topology", "<topologie", 1).replace("</topology>", "</topologie>", 1)
+    return {k: x.encode() for k, x in v.items()}
+
+
+GOOD_DOCS = ["plain", "sq", "comment", "charref", "entity", "enc", "nodecl", "spaces"]
+BAD_DOCS = ["trunc", "unclosed", "garbage", "empty", "wrongroot"]
+
+
+def one_round(rng, t, docs, what):
+    """init/load/use/destroy of slot t; what: good | fussy | failing"""
+    L = ["init %d" % t]
+    if rng.random() < 0.15:
+        L.append("blacklist %d %s" % (t, rng.choice(["nonexistent", "x86", "linux", "-nosuch"])))
+    how = rng.choice(["xml", "xmlbuf"])
+    if what == "failing":
+        r = rng.random()
+        if r < 0.6:
+            L.append("load %d 0 bind=0 %s %s" % (t, how, docs[rng.choice(sorted(docs))][rng.choice(BAD_DOCS)]))
+        elif r < 0.8:
+            L.append("load %d 0 bind=0 synthetic %s" % (t, rng.choice(BAD_SYNTH)))
+        else:
+            L.append("load %d 0 bind=0 xml /nonexistent/file.xml" % t)
+        if rng.random() < 0.5:   # retry on the same topology after the failure
+            L.append("load %d 0 bind=0 %s %s" % (t, how, docs[rng.choice(sorted(docs))][rng.choice(GOOD_DOCS)]))
+    elif what == "fussy":
+        L.append("load %d 0 bind=0 %s %s" % (t, how, docs[rng.choice(sorted(docs))][rng.choice(GOOD_DOCS[1:])]))
+    else:
+        if rng.random() < 0.5:
+            L.append("load %d 0 bind=0 synthetic %s" % (t, rng.choice(SYNTH)))
+        else:
+            L.append("load %d 0 bind=0 %s %s" % (t, how, docs[rng.choice(sorted(docs))]["plain"]))
+    for _ in range(rng.randrange(1, 4)):
+        L.append(cons_op(rng, t))
+    if rng.random() < 0.4:
+        L += mods(rng, t, rng.randrange(1, 3))
+    L.append("cons %d exportxml" % t)
+    L.append("cons %d traverse" % t)
+    L.append("destroy %d" % t)
+    return L
+
+
+def indep_faulty(rng, repo, docs, T, ordered):
+    """docs: {basename: {variant: path}}.  Thread 0's history is made of failing loads, the others import
+    and export XML (plain and parser-demanding documents, both through files and buffers).  Every thread
+    keeps one more topology alive for its whole history.  ordered: a barrier after the first round."""
+    L = ["# kind: indep-faulty",
+         "init 63", "load 63 0 bind=0 xml " + docs[sorted(docs)[0]]["plain"], "cons 63 exportxml",   # statics warm
+         "threads %d" % T]
+    for i in range(T):
+        keep = 32 + i
+        L.append("prog %d init %d" % (i, keep))
+        rounds = rng.randrange(2, 5)
+        for r in range(rounds):
+            what = "failing" if (i == 0 or rng.random() < 0.15) else rng.choice(["fussy", "fussy", "good"])
+            for l in one_round(rng, i, docs, what):
+                L.append("prog %d %s" % (i, l))
+            if r == 0 and ordered:
+                L.append("prog %d barrier" % i)
+        L.append("prog %d destroy %d" % (i, keep))
+    L += ["run noref", "destroy 63"]
+    return "\n".join(L) + "\n"
+
+
+def solo_case(case, i):
+    """thread i's history alone (fresh process): same sequential preamble, one thread"""
+    out = []
+    for l in case.split("\n"):
+        if l.startswith("threads "):
+            out.append("threads 1")
+        elif l.startswith("prog "):
+            toks = l.split(None, 2)
+            if int(toks[1]) == i:
+                out.append("prog 0 " + toks[2])
+        else:
+            out.append(l)
+    return "\n".join(out)
